@@ -450,6 +450,9 @@ type knownCond struct {
 type psEnv struct {
 	known map[string]knownCond
 	phiOp map[*ssa.Phi]ssa.Value
+	// alias: the boolean result of a helper the search walked through stands for the (non-constant) boolean the
+	// helper returned on this path (`return a || b` on the path where a was false: the result is b)
+	alias map[ssa.Value]ssa.Value
 }
 
 func (e psEnv) clone() psEnv {
@@ -459,6 +462,12 @@ func (e psEnv) clone() psEnv {
 	}
 	for k, v := range e.phiOp {
 		n.phiOp[k] = v
+	}
+	if len(e.alias) > 0 {
+		n.alias = make(map[ssa.Value]ssa.Value, len(e.alias))
+		for k, v := range e.alias {
+			n.alias[k] = v
+		}
 	}
 	return n
 }
@@ -470,6 +479,9 @@ func (e psEnv) sig() string {
 	}
 	for k, v := range e.phiOp {
 		ks = append(ks, fmt.Sprintf("%s:%s", uniqName(k), uniqName(v)))
+	}
+	for k, v := range e.alias {
+		ks = append(ks, fmt.Sprintf("%s~%s", uniqName(k), uniqName(v)))
 	}
 	sortStrings(ks)
 	return strings.Join(ks, ",")
@@ -557,6 +569,11 @@ func (q *Cut) Run(c *Ctx) (string, int) {
 				if t, ok := truth(op, e, d+1); ok {
 					return t != neg, true
 				}
+			}
+		}
+		if op, ok := e.alias[base]; ok && op != base {
+			if t, ok := truth(op, e, d+1); ok {
+				return t != neg, true
 			}
 		}
 		return false, false
@@ -650,12 +667,16 @@ func (q *Cut) Run(c *Ctx) (string, int) {
 			}
 			return false
 		}
-		p, ok := base.(*ssa.Phi)
-		if !ok {
-			return false
-		}
-		op, ok := e.phiOp[p]
-		if !ok || op == ssa.Value(p) {
+		var op ssa.Value
+		if p, isPhi := base.(*ssa.Phi); isPhi {
+			o, ok := e.phiOp[p]
+			if !ok || o == ssa.Value(p) {
+				return false
+			}
+			op = o
+		} else if o, ok := e.alias[base]; ok && o != base {
+			op = o
+		} else {
 			return false
 		}
 		// the operand may itself be (the negation of) a boolean phi that received its operand earlier on the
@@ -815,6 +836,26 @@ func (q *Cut) Run(c *Ctx) (string, int) {
 					if t, ok := truth(strip(res), it.e, 0); ok {
 						k, _ := condCanon(v)
 						ne.known[k] = knownCond{t, []ssa.Value{fr.call}}
+						return
+					}
+					// not known: the result is the boolean the helper computed last on this path
+					op := strip(res)
+					for d := 0; d < 4; d++ {
+						p, isPhi := op.(*ssa.Phi)
+						if !isPhi {
+							break
+						}
+						o2, bound := it.e.phiOp[p]
+						if !bound || o2 == ssa.Value(p) {
+							return
+						}
+						op = o2
+					}
+					if _, isC := op.(*ssa.Const); !isC {
+						if ne.alias == nil {
+							ne.alias = map[ssa.Value]ssa.Value{}
+						}
+						ne.alias[v] = op
 					}
 				}
 				// ... and the nil-ness of a returned error / pointer, when the path knows it, to the caller's nil tests
@@ -872,6 +913,9 @@ func (q *Cut) Run(c *Ctx) (string, int) {
 						stale = true
 					}
 				}
+				if _, aliased := it.e.alias[v]; aliased {
+					stale = true
+				}
 				if stale {
 					ne := it.e.clone()
 					for k, kc := range ne.known {
@@ -887,6 +931,7 @@ func (q *Cut) Run(c *Ctx) (string, int) {
 							delete(ne.phiOp, p)
 						}
 					}
+					delete(ne.alias, v)
 					it.e = ne
 				}
 			}
